@@ -62,7 +62,7 @@ def safe_name(key):
 
 
 def write_replay(prop_id, key, entry, tier, found_by):
-    directory = os.path.join(env.REPLAY_DIR, prop_id)
+    directory = os.path.join(env.NEW_REPLAY_DIR, prop_id)
     os.makedirs(directory, exist_ok=True)
     path = os.path.join(directory, safe_name(key) + '.json')
     with open(path, 'w') as handle:
